@@ -664,7 +664,9 @@ func init() {
 		safeDirect(S("index-bounds-fractional", 2, `if type == "array" then (length as $l | [.[0.5], .[-0.5], .[$l - 0.5], .[$l + 0.5], .[-$l - 0.5], .[-1.5], .[0.5:], .[:-0.5], .[$l - 1.5:], .[-0.5:]]) else "na" end`, TArr)),
 		safeDirect(S("index-bounds", 4, `if type == "array" then (length as $l | [.[0], .[$l - 1], .[$l], .[-$l], .[-$l - 1], .[-1]]) else "na" end`, TArr)),
 		safeDirect(S("slice-bounds", 4, "length as $l | [.[:$l], .[$l:], .[$l - 1:], .[1:$l], .[-$l:], .[:-$l], .[:-1], .[1:], .[-1:]]", TArr)),
-		safe(S("keys-vs-length", 2, "[keys == [range(length)], ([.[]] | length) == length, (to_entries | length) == length]", TArr)),
+		// (guarded: composed behind a query that yields a number, `length` is that
+		// number and range(4e18) exhausted the memory limit of a thorough shard)
+		safe(S("keys-vs-length", 2, `if type == "array" then [keys == [range(length)], ([.[]] | length) == length, (to_entries | length) == length] else "na" end`, TAny)),
 		safe(S("length", 3, "length", TNum)),
 		safe(S("keys", 2, "keys", TArr)),
 		safeDirect(F("index", 4, func(g *qgen, vi vinfo) (string, vinfo) {
